@@ -27,6 +27,47 @@ def zip_pairs(t):
     return None
 
 
+def alias_canon(an):
+    """`self.x = v` makes v and self.x two names for one object: rewrite terms so that the
+    attribute path is used everywhere (longest values first)"""
+    pairs = []
+    for e in an.events('STORE'):
+        if e.data['obj'] == T.SELF and e.data['aug'] is None and e.data['val'][0] not in ('const', 'unk'):
+            pairs.append((e.data['val'], T.mk(('attr', T.SELF, e.data['attr']))))
+    pairs.sort(key=lambda p: -T.depth(p[0]))
+
+    def canon(t):
+        if t is None:
+            return None
+        for v, a in pairs:
+            if T.contains(t, v):
+                t = T.mk(T.replace(t, v, a))
+        return t
+    return canon
+
+
+def writer_events(an):
+    """stores and in-place extensions of self.jobs, as (event, aug, new-part)"""
+    SJ = T.mk(('attr', T.SELF, 'jobs'))
+    out = []
+    for e in an.events('STORE'):
+        if e.data['attr'] == 'jobs' and e.data['obj'] == T.SELF:
+            v = e.data['val']
+            if e.data['aug'] is None:
+                out.append((e, None, v))
+            elif e.data['aug'] == 'Add' and v[0] == 'binop' and v[2] == SJ:
+                out.append((e, 'Add', v[3]))
+            else:
+                out.append((e, 'other', v))
+    for e in an.events('MUT'):
+        if e.data['attr'] == 'jobs' and e.data['obj'] == T.SELF:
+            if e.data['how'] == 'extend' and len(e.data['args']) == 1:
+                out.append((e, 'Add', e.data['args'][0]))
+            else:
+                out.append((e, 'other', None))
+    return out
+
+
 def construction(ctx, rep, r1, r2, r3, r4, r5):
     r = ctx.roles
     p = ctx.prog
@@ -40,7 +81,7 @@ def construction(ctx, rep, r1, r2, r3, r4, r5):
     nsub = 0
     for f in seq.methods.values():
         an, ip, out = ctx.explore(f, model=GraphModel)
-        stores = [e for e in an.events('STORE') if e.data['attr'] == 'jobs' and e.data['obj'] == T.SELF]
+        stores = writer_events(an)
         calls = [e for e in an.events('CALL') if e.data['meth'] == 'requires']
         for e in calls + an.events('MUT'):
             terms = [e.data.get('recv')] + list(e.data.get('args') or ())
@@ -68,14 +109,11 @@ def construction(ctx, rep, r1, r2, r3, r4, r5):
         for a, b, e in pairs:
             if a and b and a[0] == b[0]:
                 chains.setdefault(a[0], []).append((a[1], b[1], e))
-        for e in stores:
-            v = e.data['val']
-            if e.data['aug'] is None:
-                new = v
+        for e, aug_, new in stores:
+            if aug_ is None:
                 cands = [SJ, new]
                 extend = False
-            elif e.data['aug'] == 'Add' and v[0] == 'binop' and v[2] == SJ:
-                new = v[3]
+            elif aug_ == 'Add':
                 cands = [new]
                 extend = True
             else:
@@ -181,7 +219,8 @@ def construction(ctx, rep, r1, r2, r3, r4, r5):
     init = seq.methods.get('__init__')
     if init is not None:
         an, ip, out = ctx.explore(init, model=GraphModel)
-        ok = any(e.data['meth'] == 'requires' and e.data['recv'] == T.mk(('sub', SJ, ('const', 0)))
+        canon = alias_canon(an)
+        ok = any(e.data['meth'] == 'requires' and canon(e.data['recv']) == T.mk(('sub', SJ, ('const', 0)))
                  and e.data['args'] == (T.mk(('var', 'required')),) for e in an.events('CALL'))
         rep.check(ok, r4, "%s required= goes to the first job" % init.qualname, init.qualname,
                   "no `self.jobs[0].requires(required)`", "required= of a Sequence is lost or given to another job")
@@ -207,21 +246,20 @@ def construction(ctx, rep, r1, r2, r3, r4, r5):
     # ------------------------------------------------------------ R19.5 registration
     for f in seq.methods.values():
         an, ip, out = ctx.explore(f, model=GraphModel)
-        stores = [e for e in an.events('STORE') if e.data['attr'] == 'jobs' and e.data['obj'] == T.SELF]
+        stores = writer_events(an)
         if not stores:
             continue
+        canon = alias_canon(an)
         regs = [e for e in an.events('MUT') if e.data['how'] == 'update' and T.is_attr(T.mk(('attr', e.data['obj'], e.data['attr'])))
                 and e.data['attr'] == 'scheduler']
-        regs += [e for e in an.events('CALL') if e.data['meth'] == 'update' and T.is_attr(e.data['recv'], 'scheduler')]
+        regs += [e for e in an.events('CALL') if e.data['meth'] == 'update'
+                 and T.is_attr(canon(e.data['recv']), 'scheduler')]
         rep.check(bool(regs), r5, "%s registers its jobs in the sequence's scheduler" % f.qualname, f.qualname,
                   "no `self.scheduler.update(...)`", "jobs added to a sequence bound to a scheduler are not members of it")
         for e in regs:
             arg = e.data['args'][0] if e.data['args'] else None
-            news = set()
-            for s_ in stores:
-                v = s_.data['val']
-                news.add(v[3] if (s_.data['aug'] == 'Add' and v[0] == 'binop') else v)
-            ok = arg == SJ or arg in news
+            news = {new for _e, _a, new in stores if new is not None}
+            ok = arg == SJ or arg in news or canon(arg) == SJ
             rep.check(ok, r5, "%s registers every job involved" % e.where, f.qualname,
                       "`%s` registers %s" % (src(stmt_of(e.node)), T.show(arg, 3)[:80] if arg is not None else None),
                       "some jobs of the sequence are not registered in its scheduler", trace(e.st))
